@@ -178,11 +178,11 @@ func markSites(p *Prog, pkg string, fields []string) []guardSite {
 // unaudited planner state.
 func ruleMarkDiscipline(p *Prog, r *Report, rule, prop, pkg string, fields []string, floor int) {
 	rows := readTable("guards.tsv", 5)
+	// a site is audited when it has rows at all; their content is compared by the guard-table
+	// rule of every property the rows list (device-specific functions are listed for their device only)
 	have := map[string]bool{}
 	for _, row := range rows {
-		if propListed(row[3], prop) {
-			have[row[0]+"|"+row[1]] = true
-		}
+		have[row[0]+"|"+row[1]] = true
 	}
 	byFn := map[*ssa.Function]string{}
 	for n, fn := range fnDisplayIndex(p) {
@@ -246,6 +246,12 @@ func normaliserConsts(fn *ssa.Function) []string {
 // equates is in its conditions (guard rows) and in the constants it cuts, trims and
 // substitutes.  The constants are compared, as a multiset, with tables/normaliser_consts.tsv.
 func ruleNormaliserConsts(p *Prog, r *Report, rule, prop string) {
+	ruleNormaliserAudit(p, r, rule, prop, true)
+}
+
+// ruleNormaliserAudit: sites = false checks the constants only (large normalisers whose stores
+// into the compared text are audited by the mark discipline instead).
+func ruleNormaliserAudit(p *Prog, r *Report, rule, prop string, sites bool) {
 	n := 0
 	for _, row := range readTable("normaliser_consts.tsv", 4) {
 		if !propListed(row[1], prop) {
@@ -262,6 +268,9 @@ func ruleNormaliserConsts(p *Prog, r *Report, rule, prop string) {
 			fmt.Sprintf("the normaliser cuts, trims or substitutes other constants than audited: two device spellings that are not equivalent may compare equal.\n   audited: %s\n   now:     %s", row[2], got))
 	}
 	r.floor(rule, "audited normalisers for "+prop, n, 1)
+	if !sites {
+		return
+	}
 	// every operation of a normaliser is at an audited site
 	have := map[string]bool{}
 	for _, row := range readTable("guards.tsv", 5) {
@@ -409,9 +418,7 @@ func ruleRewriteDiscipline(p *Prog, r *Report, rule, prop string, pkgs map[strin
 	r.rule(rule, "Flag discipline: in the planner and parser packages of this property every place where a string or bool variable is conditionally given a constant (a phi outside loop headers that merges a constant with other values; short-circuit expressions excluded) is a row of tables/guards.tsv with the conditions under which the constant is taken (compared by the guard-table rule). A flag that is additionally cleared or set under a new condition (`not worthwhile, replace everything`, a special case widened to the un-negated spelling) changes which branch the planner takes without touching any call site.")
 	have := map[string]bool{}
 	for _, row := range readTable("guards.tsv", 5) {
-		if propListed(row[3], prop) {
-			have[row[0]+"|"+row[1]] = true
-		}
+		have[row[0]+"|"+row[1]] = true
 	}
 	n := 0
 	for _, fn := range allModFuncs(p) {
